@@ -18,7 +18,9 @@ R-C24.6   the qubit finder never prunes the descent into a type.
 R-C24.8   a non-acceptable call nested in the arguments (any position, next to qubit or classical arguments) or in the callee
           expression of an acceptable call is found and rejected -- interpreted on 288 nestings (c24_calls.py; the shape rules
           of c24_traversal.py only as fallback); the qubit finder looks into struct fields.
-R-C24.7   flag plumbing: decorator kwargs -> definition -> CFG -> unitary pass.
+R-C24.7   flag plumbing: decorator kwargs -> definition -> CFG -> unitary pass; who may give a function type flags: only the
+          definition kinds whose body is checked under them (RawFunctionDef) or that have no Guppy body (declarations, custom
+          operations) -- reviewed table.
 """
 
 from __future__ import annotations
@@ -417,6 +419,45 @@ def run(ctx: Ctx) -> None:
           and not any(isinstance(n, (ast.Break, ast.Return, ast.Continue)) for st2 in loop.body for n in walk_no_nested(st2)))
     ctx.check(ok, "R-C24.7", f"{ccu.qualname}#all-blocks", ccu.where, {"loop_over": ast.unparse(loop.iter) if loop else None},
               "not every block of the CFG is checked, or not with the CFG's flags")
+
+    # who may give a function type flags: only definitions whose body is checked against them, or that have no Guppy body
+    FLAG_GIVERS = {
+        "RawFunctionDef": "body checked by ParsedFunctionDef.check -> check_global_func_def -> check_invalid_under_dagger / CFG flags -> check_cfg_unitary (links above)",
+        "RawFunctionDecl": "a declaration: no body, the flags are the author's promise about the implementation",
+        "RawCustomFunctionDef": "an operation implemented by a HUGR op / custom compiler: no Guppy body, flags declared by the library",
+    }
+    n_givers = 0
+    for f in idx.iter_funcs(("guppylang_internals.definition", "guppylang_internals.decorator", "guppylang.decorator")):
+        if f.cls is None:
+            continue
+        for c in calls_in(f.node):
+            gives = (call_name(c) == "check_signature" and (any(k.arg == "unitary_flags" for k in c.keywords) or len(c.args) >= 4)) \
+                or (isinstance(c.func, ast.Attribute) and c.func.attr == "with_unitary_flags")
+            if not gives:
+                continue
+            n_givers += 1
+            ctx.check(f.cls.name in FLAG_GIVERS, "R-C24.7", f"{f.qualname}#gives-flags-to-its-function-type", f"{f.module.rel}:{c.lineno}",
+                      {"class": f.cls.name, "call": ast.unparse(c)[:90], "reviewed": FLAG_GIVERS.get(f.cls.name)},
+                      f"`{f.cls.name}` puts declared unitary flags on its function type, but its body never passes the unitary checks (it is not one "
+                      f"of the definition kinds whose body is checked, and it is not body-less): a function declared dagger/control/power may do "
+                      f"anything inside and is still accepted in a flagged context")
+    ctx.floor("R-C24.7", "definitions that give their function type flags", n_givers, 3)
+    # decorator -> definition: the flag set parsed from the decorator's keywords is handed to the definition it creates
+    n_parsed = 0
+    for f in idx.iter_funcs(("guppylang.decorator",)):
+        for fn_node in (f.node,):  # (nested functions are functions of the index in their own right)
+            for st in walk_no_nested(fn_node):
+                if not (isinstance(st, ast.Assign) and isinstance(st.value, ast.Call) and call_name(st.value) == "_parse_kwargs" and len(st.targets) == 1 and isinstance(st.targets[0], ast.Name)):
+                    continue
+                n_parsed += 1
+                nm = st.targets[0].id
+                handed_on = any(isinstance(c_, ast.Call) and any(isinstance(a_, ast.Name) and a_.id == nm for a_ in list(c_.args) + [k_.value for k_ in c_.keywords])
+                                for c_ in ast.walk(fn_node))
+                ctx.check(handed_on, "R-C24.7", f"{f.qualname}#parsed-flags-reach-the-definition", f"{f.module.rel}:{st.lineno}",
+                          {"statement": ast.unparse(st)[:80], "handed_to_a_constructor": handed_on},
+                          "the flags declared in the decorator (`dagger=True`, ...) are parsed and then dropped: the function is neither checked "
+                          "under them nor rejected for declaring them")
+    ctx.floor("R-C24.7", "decorators that parse unitary keywords", n_parsed, 3)
 
     # ------------------------------------------------------------ R-C24.8 argument traversal is unconditional
     from . import c24_traversal
